@@ -1,6 +1,8 @@
 (* C18 driver: tie (i) of C18 - the access sites of the current source against Model/Race.v Parts 4 and 5.
 
-   graph e:<call|spawn|send>:<from>:<to> ...   the call graph of package service (kept by the driver: its one piece of state)
+   graph e:<call|spawn|send>:<from>:<to> ... f:<struct>:<field>:<type> ...
+                                       the call graph of package service and the declared fields of the statically placed
+                                       structs (kept by the driver: its one piece of state)
    site  <func> <type> <field> <r|w>   the goroutine class reaching <func> (roots by the model's table, static calls stay in
                                         the caller's goroutine) is unique and the model performs (class, location of the
                                         field, role) (a read site is also covered by a modelled write)
@@ -31,24 +33,26 @@ let init () =
        graph e:<call|spawn|send>:<from>:<to> ...
      the driver keeps it (the one piece of state of this oracle) and answers the following short requests with it:
        site <func> <type> <field> <r|w>     spawn <from> <to>     send <from> <to>     cap <closure> <var> <r|w> *)
-  let graph : gedge list option ref = ref None in
+  let graph : (gedge list * gdecl list) option ref = ref None in
   let str l = Stdlib.String.init (Stdlib.List.length l) (fun i -> Char.chr (int_of_n (Stdlib.List.nth l i))) in
   let cls m f = "{" ^ Stdlib.String.concat "," (Stdlib.List.map gname (cm_get f m)) ^ "}" in
-  let with_graph k = match !graph with None -> "no graph loaded (the `graph ...` request comes first)" | Some es -> k es (classes_of es) in
+  let with_graph k = match !graph with None -> "no graph loaded (the `graph ...` request comes first)" | Some (es, ds) -> k ds (classes_of es) in
   register "graph" (fun args ->
-    let es = Stdlib.List.map (fun a ->
+    let es = ref [] and ds = ref [] in
+    Stdlib.List.iter (fun a ->
       match Stdlib.String.split_on_char ':' a with
       | ["e"; k; f; t] ->
         let kind = (match k with "call" -> KCall | "spawn" -> KSpawn | "send" -> KSendLit | _ -> failwith ("edge kind " ^ k)) in
-        { e_kind = kind; e_from = codes f; e_to = codes t }
-      | _ -> failwith ("bad item " ^ a)) args in
-    graph := Some es; "graph-loaded");
+        es := { e_kind = kind; e_from = codes f; e_to = codes t } :: !es
+      | ["f"; st; fld; ty] -> ds := { d_struct = codes st; d_field = codes fld; d_type = codes ty } :: !ds
+      | _ -> failwith ("bad item " ^ a)) args;
+    graph := Some (Stdlib.List.rev !es, Stdlib.List.rev !ds); "graph-loaded");
   register "site" (fun args ->
     match args with
     | [f; ty; fld; rw] when rw = "r" || rw = "w" ->
-      with_graph (fun _ m ->
+      with_graph (fun ds m ->
         let s = { s_fun = codes f; s_type = codes ty; s_field = codes fld; s_write = (rw = "w") } in
-        match check_site m s with
+        match check_site ds m s with
         | [] -> "modelled"
         | PSiteNoClass _ :: _ -> "NOT-MODELLED: the function is reached from no root of the model"
         | PSiteTwoClasses _ :: _ -> "NOT-MODELLED: the function is reached by goroutine classes " ^ cls m s.s_fun
@@ -68,8 +72,9 @@ let init () =
     match args with
     | [f; _var; kind; ty; rw; imm] when (rw = "r" || rw = "w") && (imm = "imm" || imm = "mut") ->
       let k = (match kind with "chan" -> CKChan | "basic" -> CKBasic | _ -> CKRef) in
-      if check_cap { c_fun = codes f; c_kind = k; c_type = codes ty; c_write = (rw = "w"); c_imm = (imm = "imm") } = [] then "ok"
-      else "NOT-MODELLED: a closure that runs in another goroutine shares this variable with its creator; not a hand-over the model knows"
+      with_graph (fun _ m ->
+        if check_cap m { c_fun = codes f; c_kind = k; c_type = codes ty; c_write = (rw = "w"); c_imm = (imm = "imm") } = [] then "ok"
+        else "NOT-MODELLED: a closure that runs in another goroutine (class " ^ cls m (codes f) ^ ") shares this variable with its creator; not a hand-over the model knows")
     | _ -> "bad-request");
   register "racescen" (fun _ -> "n/a: race-detector scenario; the model's statement is C18_race_free");
   register "accs" (fun _ ->
